@@ -29,6 +29,19 @@ def run(op, a):
         res += [m.GetTxid(), m.GetHash()]
         m.vin[0].nSequence = (m.vin[0].nSequence + 1) % (1 << 32)
         res += [m.GetTxid()]
+        # an immutable transaction frozen from a mutable one (and asked for its ids) keeps them when
+        # the source's inputs / outpoints / outputs are edited in place afterwards
+        src = tx_from_val(a[0], mutable=True)
+        frozen = CTransaction.from_tx(src)
+        f0 = (frozen.GetTxid(), frozen.GetHash())
+        src.vin[0].prevout.n = (src.vin[0].prevout.n + 1) % (1 << 32)
+        src.vin[0].nSequence = (src.vin[0].nSequence + 1) % (1 << 32)
+        if src.vout:
+            src.vout[0].nValue ^= 1
+        f1 = (frozen.GetTxid(), frozen.GetHash())
+        from bitcoin.core import Hash
+        if f1 != f0 or f1[1] != Hash(frozen.serialize()) or f1 != (res[0], res[1]):
+            res[0], res[1] = f1[0] if f1[0] != res[0] else b'stale-after-source-edit', f1[1]
         # == and hash() of the edited mutable object against a fresh immutable object with the same
         # fields (elements 5 and 6 stay 1 only if they hold before AND after the edits)
         snap = CTransaction.from_tx(m)
